@@ -160,6 +160,8 @@ structure InvD where
   addr : String
   htlcs : List HtlcD
   raw : String
+  /-- AMP per-set state: (set id prefix, A | S | C) -/
+  sets : List (String × String) := []
   deriving Repr
 
 def parseHtlc (s : String) : Option HtlcD :=
@@ -180,7 +182,14 @@ def parseInv (hash : String) (raw : String) : Option InvD :=
         kv? ws "feat", kv? ws "addr", kv? ws "htlcs" with
   | some st, some paid, some pre, some val, some cltv, some feat, some addr, some htl =>
     let hs := if htl == "-" then some [] else (htl.splitOn ",").mapM parseHtlc
-    hs.map fun hs => ⟨hash, st, paid, pre, val, cltv, feat, addr, hs, raw⟩
+    let sets := match kv? ws "sets" with
+      | some "-" => []
+      | some x => (x.splitOn ",").filterMap fun e =>
+          match e.splitOn ":" with
+          | [id, st, _] => some (id, st)
+          | _ => none
+      | none => []
+    hs.map fun hs => ⟨hash, st, paid, pre, val, cltv, feat, addr, hs, raw, sets⟩
   | _, _, _, _, _, _, _, _ => none
 
 /-- a notify operation as issued by the harness. -/
@@ -475,7 +484,27 @@ def finishOp (s : St) : IO St := do
         s ← monitor s "states_monotone" s!"invoice {d.hash}: {d.st} -> {d'.st}"
       for h in d.htlcs do
         match d'.htlcs.find? (·.key == h.key) with
-        | none => s ← monitor s "states_monotone" s!"htlc {keyStr h.key} vanished from invoice {d.hash}"
+        | none =>
+          -- known finding F-c15-kv-amp-setid-reuse, attributed only when it is what happened: kv
+          -- store, the vanished htlc is a resolved (settled / canceled) AMP htlc, its set was
+          -- recorded as settled, and this operation is a notify that added an htlc under the
+          -- very same set id (kvInvoiceUpdater.UpdateAmpState rewrites the set's htlc blob)
+          let reuse := !s.cfg.sql && (h.st == "S" || h.st == "C") &&
+            (match h.amp, s.opNotify with
+             | some (sid, _, _), some n =>
+               (n.amp.map (·.take 8)) == some sid &&
+               (d.sets.find? (·.1 == sid)).map (·.2) == some "S" &&
+               (d'.htlcs.any (·.key == n.key)) && !(d.htlcs.any (·.key == n.key))
+             | _, _ => false)
+          if reuse then
+            -- the database has forgotten the htlc: so does the monitor's history of it
+            s := { s with intro := s.intro.filter (·.1 != h.key),
+                          settledKeys := s.settledKeys.filter (· != h.key),
+                          canceledKeys := s.canceledKeys.filter (· != h.key),
+                          groups := s.groups.filter (·.1 != h.key) }
+            s ← monitor s "amp_setid_reuse_kv" s!"{h.st} htlc {keyStr h.key} vanished from invoice {d.hash} when its settled set id was paid again (kv store)"
+          else
+            s ← monitor s "states_monotone" s!"htlc {keyStr h.key} vanished from invoice {d.hash}"
         | some h' =>
           if !htlcStateOk h.st h'.st then
             s ← monitor s "states_monotone" s!"htlc {keyStr h.key} on {d.hash}: {h.st} -> {h'.st}"
